@@ -1,5 +1,6 @@
 import Zstd.Props.C01
-import Zstd.Proofs.FrameDecoderNoFault
+import Zstd.Proofs.FrameDecoderStandIn
+import Zstd.Proofs.FrameFaithful
 import Zstd.Proofs.BlockNoFault
 /-
 C03 — no input can make decoding panic, corrupt memory or hang.
@@ -15,7 +16,7 @@ open Zstd Zstd.Model
 /-- the full statement for the block-decoding entry point: whatever the source bytes and the
 decoder state, `decode_blocks` returns a value or an error, never a fault -/
 def C03_full : Prop :=
-  ∀ (d : Decoder) (s : Src) (strat : Strategy) (f : Fault), (d.decodeBlocks s strat).2 ≠ .fault f
+  ∀ (d : DecA) (s : Src) (strat : Strategy) (f : Fault), (d.decodeBlocks s strat).2 ≠ .fault f
 
 /-- `execute_sequences` cannot panic: its only panic site (the `offset_value - 3` underflow) needs
 an offset value of 0, which no sequence carries -/
@@ -91,34 +92,102 @@ theorem decodeSeqLoop_ov_pos (llT ofT mlT : Spec.Fse.Table) :
       · cases h
     · cases h
 
-/-! ### the frame level (agentH): no operation of the public API ever returns a `Fault` -/
+/-! ### the frame level (agentH): no operation of the public API ever returns a `Fault`
+
+Proved for EVERY block decoder with a `NoFaultContract` (`*_of_contract`: the decoder's entropy state
+and its dictionaries are well formed — `Decoder.entWF`, established by `new` and preserved by every
+operation — and the source satisfies the contract's input predicate, "is a list of bytes" for the
+faithful decoder).  The theorems under the old names are the instances for the Spec stand-in, whose
+contract has no preconditions. -/
+
+section generic
+variable {σ : Type} [BlockDec σ] [BlockContract σ] [NoFaultContract σ]
+
+/-! The invariant is `Decoder.entWF` (frame state and dictionaries well formed).  It is established by
+`new` and by every `reset` that returns `Ok`, kept by draining, and kept by every decode operation
+whose result is `Out.clean`: anything but `err literals` / `err sequences`, the two errors after
+which the real scratch can hold a half-built table.  After those two the caller may still drain,
+query and `reset` (or call `decode_all`, which resets) — `Decoder.dictsWF` is kept by everything
+and is all `reset` needs — but must not decode on in the failed frame. -/
+
+/-- a new decoder (no frame state) with well-formed dictionaries satisfies the invariant -/
+theorem new_entWF (dicts : List (Dict σ)) (mw : Nat) (h : ∀ dict ∈ dicts, NoFaultContract.wf dict.entropy) :
+    ({ state := none, dicts := dicts, maxWindow := mw } : Decoder σ).entWF :=
+  ⟨fun _ hst => (nomatch hst), h⟩
+
+theorem decodeOneBlock_no_fault_of_contract (st : FState σ) (s : Src) (hw : st.entWF) (hi : NoFaultContract.inp σ s) :
+    ((decodeOneBlock st s).2.clean → (decodeOneBlock st s).1.entWF) ∧ ∀ f, (decodeOneBlock st s).2 ≠ .fault f :=
+  decodeOneBlock_noFault st s hw hi
+
+theorem decodeBlocks_no_fault_of_contract (d : Decoder σ) (s : Src) (strat : Strategy) (hw : d.entWF)
+    (hi : NoFaultContract.inp σ s) :
+    ((d.decodeBlocks s strat).2.clean → (d.decodeBlocks s strat).1.entWF) ∧ (d.decodeBlocks s strat).1.dictsWF ∧
+    (∀ f, (d.decodeBlocks s strat).2 ≠ .fault f) ∧
+    (∀ s' fin, (d.decodeBlocks s strat).2 = .ok (s', fin) → NoFaultContract.inp σ s') :=
+  Decoder.decodeBlocks_noFault d s strat hw hi
+
+/-- `reset` never faults, from ANY decoder state (also the debris of a failed frame) as long as the
+registered dictionaries are well formed; when it returns `Ok` the full invariant holds again -/
+theorem reset_no_fault_of_contract (d : Decoder σ) (s : Src) (hd : d.dictsWF) :
+    (d.reset s).1.dictsWF ∧ (∀ f, (d.reset s).2 ≠ .fault f) ∧
+    (d.entWF → (d.reset s).1.entWF) ∧ (∀ rest, (d.reset s).2 = .ok rest → (d.reset s).1.entWF) :=
+  Decoder.reset_noFault d s hd
+
+theorem drain_keeps_entWF (d : Decoder σ) (op : DrainOp) (hw : d.entWF) : (applyDrain d op).1.entWF :=
+  applyDrain_entWF d op hw
+
+theorem drain_keeps_dictsWF (d : Decoder σ) (op : DrainOp) (hw : d.dictsWF) : (applyDrain d op).1.dictsWF :=
+  applyDrain_dictsWF d op hw
+
+theorem decodeFromTo_no_fault_of_contract (d : Decoder σ) (s : Src) (n : Nat) (hw : d.entWF)
+    (hi : NoFaultContract.inp σ s) :
+    ((d.decodeFromTo s n).2.clean → (d.decodeFromTo s n).1.entWF) ∧ (d.decodeFromTo s n).1.dictsWF ∧
+    ∀ f, (d.decodeFromTo s n).2 ≠ .fault f :=
+  Decoder.decodeFromTo_noFault d s n hw hi
+
+/-- `decode_all` (which starts every frame with `reset`) never faults, from any decoder state with
+well-formed dictionaries -/
+theorem decodeAll_no_fault_of_contract (d : Decoder σ) (s : Src) (room : Nat) (hd : d.dictsWF)
+    (hi : NoFaultContract.inp σ s) :
+    (d.decodeAll s room).1.dictsWF ∧ (∀ f, (d.decodeAll s room).2 ≠ .fault f) ∧
+    (d.entWF → (d.decodeAll s room).2.clean → (d.decodeAll s room).1.entWF) :=
+  decodeAllLoop_noFault _ d s room #[] hd hi
+
+theorem streamingRead_no_fault_of_contract (d : Decoder σ) (s : Src) (n : Nat) (hw : d.entWF)
+    (hi : NoFaultContract.inp σ s) :
+    ((streamingRead d s n).2.clean → (streamingRead d s n).1.entWF) ∧ (streamingRead d s n).1.dictsWF ∧
+    ∀ f, (streamingRead d s n).2 ≠ .fault f :=
+  streamingRead_noFault d s n hw hi
+
+end generic
 
 /-- one block never faults, whatever the state and the source: the sequences handed to
-`execute_sequences` come from the sequence decoder, whose offset values are `2^code + extra ≥ 1` -/
-theorem decodeOneBlock_no_fault (st : FState) (s : Src) (f : Fault) : (decodeOneBlock st s).2 ≠ .fault f :=
-  decodeOneBlock_noFault st s f
+`execute_sequences` come from the sequence decoder, whose offset values are `2^code + extra ≥ 1`
+(stand-in instance) -/
+theorem decodeOneBlock_no_fault (st : FState Spec.Entropy) (s : Src) (f : Fault) : (decodeOneBlock st s).2 ≠ .fault f :=
+  (decodeOneBlock_noFault st s trivial trivial).2 f
 
 /-- `C03_full` holds: `decode_blocks` returns a value or an error, never a fault — every state (also
-states left behind by earlier errors), every source, every strategy -/
+states left behind by earlier errors), every source, every strategy (stand-in instance) -/
 theorem decodeBlocks_no_fault : C03_full :=
-  fun d s strat f => Decoder.decodeBlocks_noFault d s strat f
+  fun d s strat f => (Decoder.decodeBlocks_noFault d s strat (entWF_standIn d) trivial).2.2.1 f
 
 /-- `reset`/`init` never faults -/
-theorem reset_no_fault (d : Decoder) (s : Src) (f : Fault) : (d.reset s).2 ≠ .fault f :=
-  Decoder.reset_noFault d s f
+theorem reset_no_fault (d : DecA) (s : Src) (f : Fault) : (d.reset s).2 ≠ .fault f :=
+  (Decoder.reset_noFault d s (entWF_standIn d).2).2.1 f
 
 /-- `decode_from_to` never faults: no block fault, and its two `panic!("Bug in library")` arms are
 unreachable (after a successful `init` the state is `Some`) -/
-theorem decodeFromTo_no_fault (d : Decoder) (s : Src) (n : Nat) (f : Fault) : (d.decodeFromTo s n).2 ≠ .fault f :=
-  Decoder.decodeFromTo_noFault d s n f
+theorem decodeFromTo_no_fault (d : DecA) (s : Src) (n : Nat) (f : Fault) : (d.decodeFromTo s n).2 ≠ .fault f :=
+  (Decoder.decodeFromTo_noFault d s n (entWF_standIn d) trivial).2.2 f
 
 /-- `decode_all` never faults -/
-theorem decodeAll_no_fault (d : Decoder) (s : Src) (room : Nat) (f : Fault) : (d.decodeAll s room).2 ≠ .fault f :=
-  decodeAllLoop_noFault _ d s room #[] f
+theorem decodeAll_no_fault (d : DecA) (s : Src) (room : Nat) (f : Fault) : (d.decodeAll s room).2 ≠ .fault f :=
+  (decodeAllLoop_noFault _ d s room #[] (entWF_standIn d).2 trivial).2.1 f
 
 /-- `StreamingDecoder::read` never faults -/
-theorem streamingRead_no_fault (d : Decoder) (s : Src) (n : Nat) (f : Fault) : (streamingRead d s n).2 ≠ .fault f :=
-  streamingRead_noFault d s n f
+theorem streamingRead_no_fault (d : DecA) (s : Src) (n : Nat) (f : Fault) : (streamingRead d s n).2 ≠ .fault f :=
+  (streamingRead_noFault d s n (entWF_standIn d) trivial).2.2 f
 
 /-- the `assert!(seq_sum as usize == diff)` at the end of `execute_sequences` (not a `Fault` site of
 the model) cannot fire: on `Ok` the buffer grew by exactly the final `seq_sum`, and `seq_sum` never
@@ -141,7 +210,7 @@ theorem copyWithin_reads_in_bounds (n off : Nat) (c : Array Nat) (h0 : 0 < off) 
 
 /-- every loop of the frame level terminates: more fuel than the source is long never changes a
 result (each iteration consumes ≥ 3 source bytes or returns) -/
-theorem frame_loops_terminate (strat : Strategy) (a c f : Nat) (st : FState) (d : Decoder) (s : Src)
+theorem frame_loops_terminate {σ : Type} [BlockDec σ] [BlockContract σ] (strat : Strategy) (a c f : Nat) (st : FState σ) (d : Decoder σ) (s : Src)
     (room n : Nat) (out : Array Nat) (h : s.length < f) :
     decodeBlocksLoop strat a c f st s = decodeBlocksLoop strat a c (s.length + 1) st s ∧
     decodeFromToLoop f st s = decodeFromToLoop (s.length + 1) st s ∧
@@ -156,6 +225,7 @@ theorem frame_loops_terminate (strat : Strategy) (a c f : Nat) (st : FState) (d 
 
 /-- non-vacuity: a sequence with offset value 4 on a buffer holding one byte executes without fault -/
 example : (executeSequences [⟨0, 3, 4⟩] [] (1, 4, 8) 0 { content := #[7] }).2.isOk = true := by decide
+
 
 /-! ## block level: `BlockDecoder::decompress_block` on the faithful model (`Zstd.Model.Blk`)
 
@@ -298,6 +368,77 @@ successfully on it -/
 example : Blk.WF {} ∧ Zstd.Proofs.BitIO.Bytes [0x20, 0x61, 0x62, 0x63, 0x64, 0x01, 0x54, 0x04, 0x02, 0x00, 0x04] ∧
     isOk (Blk.decompressBlock [0x20, 0x61, 0x62, 0x63, 0x64, 0x01, 0x54, 0x04, 0x02, 0x00, 0x04] {} {}).2 = true := by
   refine ⟨Blk.WF_new, by intro x hx; simp at hx; omega, by decide +kernel⟩
+
+/-! ### instance B: the decoder the drivers run
+
+For `DecB` — the frame-level model over the FAITHFUL block decoder, the one engine `dec` compares with
+the real code on valid and malformed frames — no-fault at the frame level follows from the block-level
+theorem (`Blk.decompressBlock_spec`, Proofs/BlockNoFault.lean) through `NoFaultObligation` /
+`instNoFaultFaithful` (Proofs/FrameFaithful.lean); no hypothesis is left.  Unlike the stand-in, the real
+scratch CAN be left ill-formed by a failed table build, so the statement is the honest one: no fault
+from any state reached by `new`, successful `reset`s, drains and decode operations that did not end in
+`err literals` / `err sequences` (`Out.clean`); after those two, draining and querying stay safe and
+`reset` / `decode_all` (which never fault, from ANY state) restore the invariant — decoding on in the
+failed frame is the one thing not covered (and can indeed panic: `continue_after_error_faults_*`,
+Props/C03 block level). -/
+
+section faithful
+
+/-- a new decoder without dictionaries satisfies the invariant -/
+theorem new_entWF_faithful (mw : Nat) : ({ state := none, dicts := [], maxWindow := mw } : DecB).entWF :=
+  new_entWF [] mw (fun _ h => nomatch h)
+
+/-- **`decode_blocks` on the faithful model never faults**: every byte source, every strategy, every
+decoder state satisfying the invariant -/
+theorem decodeBlocks_no_fault_faithful (d : DecB) (s : Src) (strat : Strategy) (hw : d.entWF)
+    (hi : ∀ x ∈ s, x < 256) :
+    ((d.decodeBlocks s strat).2.clean → (d.decodeBlocks s strat).1.entWF) ∧
+      (d.decodeBlocks s strat).1.dictsWF ∧ ∀ f, (d.decodeBlocks s strat).2 ≠ .fault f := by
+  have := decodeBlocks_no_fault_of_contract d s strat hw hi
+  exact ⟨this.1, this.2.1, this.2.2.1⟩
+
+/-- **`reset` never faults, from any state**, and a successful `reset` re-establishes the invariant -/
+theorem reset_no_fault_faithful (d : DecB) (s : Src) (hd : d.dictsWF) :
+    (d.reset s).1.dictsWF ∧ (∀ f, (d.reset s).2 ≠ .fault f) ∧
+      (∀ rest, (d.reset s).2 = .ok rest → (d.reset s).1.entWF) := by
+  have := reset_no_fault_of_contract d s hd
+  exact ⟨this.1, this.2.1, this.2.2.2⟩
+
+/-- **`decode_all` never faults, from any state** (it resets before every frame) -/
+theorem decodeAll_no_fault_faithful (d : DecB) (s : Src) (room : Nat) (hd : d.dictsWF) (hi : ∀ x ∈ s, x < 256) :
+    (d.decodeAll s room).1.dictsWF ∧ ∀ f, (d.decodeAll s room).2 ≠ .fault f := by
+  have := decodeAll_no_fault_of_contract d s room hd hi
+  exact ⟨this.1, this.2.1⟩
+
+theorem decodeFromTo_no_fault_faithful (d : DecB) (s : Src) (n : Nat) (hw : d.entWF) (hi : ∀ x ∈ s, x < 256) :
+    ((d.decodeFromTo s n).2.clean → (d.decodeFromTo s n).1.entWF) ∧ ∀ f, (d.decodeFromTo s n).2 ≠ .fault f := by
+  have := decodeFromTo_no_fault_of_contract d s n hw hi
+  exact ⟨this.1, this.2.2⟩
+
+theorem streamingRead_no_fault_faithful (d : DecB) (s : Src) (n : Nat) (hw : d.entWF) (hi : ∀ x ∈ s, x < 256) :
+    ((streamingRead d s n).2.clean → (streamingRead d s n).1.entWF) ∧ ∀ f, (streamingRead d s n).2 ≠ .fault f := by
+  have := streamingRead_no_fault_of_contract d s n hw hi
+  exact ⟨this.1, this.2.2⟩
+
+/-- a decoder without dictionaries: `decode_all` on ANY bytes, from ANY state, never faults -/
+theorem decodeAll_no_fault_faithful_nodict (d : DecB) (hnd : d.dicts = []) (s : Src) (room : Nat)
+    (hi : ∀ x ∈ s, x < 256) (f : Fault) : (d.decodeAll s room).2 ≠ .fault f :=
+  (decodeAll_no_fault_faithful d s room (by intro dict h; rw [hnd] at h; cases h) hi).2 f
+
+/-- non-vacuity, and the error CLASS of the faithful model on malformed block content: a compressed
+block whose sequences section is a lone count byte is `SequencesHeaderParseError` (`err seqHeader`), a
+zero count followed by a stray byte is `DecodeSequenceError` (`err sequences`) — as the code reports
+them (engine `dec` compares these lines with the real decoder) -/
+def loneCountByte : List Nat := [0x28, 0xB5, 0x2F, 0xFD, 0x20, 0x00, 0x15, 0x00, 0x00, 0x00, 0x01]
+def strayByteAfterZeroCount : List Nat := [0x28, 0xB5, 0x2F, 0xFD, 0x20, 0x00, 0x1D, 0x00, 0x00, 0x00, 0x00, 0xAA]
+
+example : (match ((({} : DecB).reset loneCountByte).1.decodeBlocks (loneCountByte.drop 6) .all).2 with
+  | .err .seqHeader => true | _ => false) = true := by decide +kernel
+
+example : (match ((({} : DecB).reset strayByteAfterZeroCount).1.decodeBlocks (strayByteAfterZeroCount.drop 6) .all).2 with
+  | .err .sequences => true | _ => false) = true := by decide +kernel
+
+end faithful
 
 /-- the zero-offset guard of `execute_sequences` in the SOURCE (operator extracted on every run, anchored to the whole
 condition) is the one the model uses (`if actual = 0 then err ZeroOffset`): without it `repeat(0, n)` never ends -/
